@@ -1388,16 +1388,34 @@ def _descendants(root):
     return d(root)
 
 
+def _unix_inodes():
+    out = set()
+    try:
+        for row in open('/proc/net/unix').read().split('\n')[1:]:
+            f = row.split()
+            if len(f) > 6:
+                out.add(f[6])
+    except OSError:
+        pass
+    return out
+
+
 def _socket_fds(pids):
+    """number of descriptors of non-AF_UNIX sockets held by the proxy's processes (listeners + client /
+    upstream connections, also fully closed ones that only a leaked descriptor keeps alive).  AF_UNIX
+    sockets (work-queue pipes, asyncio self-pipes, created whenever a process gets round to it) are not
+    connections and are not counted."""
+    unix = _unix_inodes()
     n = 0
     for p in pids:
         try:
             for fd in os.listdir('/proc/%d/fd' % p):
                 try:
-                    if os.readlink('/proc/%d/fd/%s' % (p, fd)).startswith('socket:'):
-                        n += 1
+                    l = os.readlink('/proc/%d/fd/%s' % (p, fd))
                 except OSError:
-                    pass
+                    continue
+                if l.startswith('socket:[') and l[8:-1] not in unix:
+                    n += 1
         except OSError:
             pass
     return n
